@@ -88,13 +88,26 @@ impl<'a> RegExp<'a> {
             .iter()
             .map(|it| {
                 let lower_test_case = it.to_lowercase();
-                if lower_test_case.chars().count() == it.chars().count() {
+                if lower_test_case.chars().count() == it.chars().count()
+                    && Self::is_matched_case_insensitively(&lower_test_case, it)
+                {
                     lower_test_case
                 } else {
                     it.to_string()
                 }
             })
             .collect_vec();
+    }
+
+    fn is_matched_case_insensitively(lower_test_case: &str, test_case: &str) -> bool {
+        // The standard library may know more recent case mappings than the regex crate.
+        // A lowercased test case is only usable if the regex crate folds it back.
+        lower_test_case == test_case
+            || test_case.is_ascii()
+            || regex::RegexBuilder::new(&format!("^{}$", regex::escape(lower_test_case)))
+                .case_insensitive(true)
+                .build()
+                .is_ok_and(|regex| regex.is_match(test_case))
     }
 
     fn convert_expr_to_regex(expr: &Expression, config: &RegExpConfig) -> Regex {
